@@ -1,7 +1,501 @@
-(* Properties/C11.v — placeholder until the theorems over Model/Core.v are assembled. *)
-From Coq Require Import ZArith List.
+(* Properties/C11.v — relation queries return exactly the declared relations; closures and relation paths terminate
+   (model: Core.Sense_* / Synset_* relation functions over Query.get_*_relations; Proofs/AgendaProofs.v relates
+   the agenda loops of the Python code to the recursive definitions).
+   Statements only: every theorem is closed by `exact` of a lemma proved under Proofs/, followed by
+   Print Assumptions.  (Statement texts were printed by Coq from the proved lemmas by harness/mkprops.py and are
+   fixed from then on.) *)
+From Coq Require Import String.
+From Coq Require Import ZArith List Bool.
 Import ListNotations.
-Require Import WnV.Base.Sx WnV.Model.Core.
-Example C11_model_present : run_core (L []) = run_core (L []).
-Proof. reflexivity. Qed.
-Print Assumptions C11_model_present.
+Require Import WnV.Base.Sx WnV.Model.Spec WnV.Model.Tables WnV.Model.Query WnV.Model.Core.
+Require Import WnV.Proofs.CoreLemmas WnV.Proofs.QueryFacts WnV.Proofs.ScopeProofs WnV.Proofs.SearchProofs
+        WnV.Proofs.NavProofs WnV.Proofs.RelGeneric WnV.Proofs.RelProofs WnV.Proofs.RelClosureProofs
+        WnV.Proofs.ExpandProofs WnV.Proofs.FrameProofs WnV.Proofs.CoreNonvacuity.
+Require WnV.Model.Taxonomy WnV.Proofs.TaxSpec WnV.Proofs.TaxPaths WnV.Proofs.AgendaProofs.
+Local Open Scope Z_scope.
+
+(* ---- R1: a (relation, target) pair is reported exactly when a relation row of the requested type, declared by a lexicon in scope, links the source to the target (in scope) *)
+Theorem C11_Sense_iter_sense_relations_iff :
+  forall d : db,
+         db_ok d = true ->
+         forall (s : Sense) (args : list str) (pairs : list (Relation * Sense))
+           (r : Relation) (t : Sense),
+         Sense_iter_sense_relations d s args = Ok pairs ->
+         In (r, t) pairs <-> sense_relation_row d s args r t.
+Proof. exact (@Sense_iter_sense_relations_iff). Qed.
+Print Assumptions C11_Sense_iter_sense_relations_iff.
+
+Theorem C11_Sense_iter_sense_relations_Ok :
+  forall (d : db) (s : Sense) (args : list str),
+         scope d (sn_wordnet s) (sn_lexid s) <> [] ->
+         exists pairs : list (Relation * Sense), Sense_iter_sense_relations d s args = Ok pairs.
+Proof. exact (@Sense_iter_sense_relations_Ok). Qed.
+Print Assumptions C11_Sense_iter_sense_relations_Ok.
+
+Theorem C11_Synset_iter_local_relations_iff :
+  forall d : db,
+         db_ok d = true ->
+         forall (y : Synset) (args : list str) (pairs : list (Relation * Synset))
+           (r : Relation) (t : Synset),
+         Synset_iter_local_relations d y args = Ok pairs ->
+         In (r, t) pairs <-> synset_relation_row d y args r t.
+Proof. exact (@Synset_iter_local_relations_iff). Qed.
+Print Assumptions C11_Synset_iter_local_relations_iff.
+
+Theorem C11_Synset_iter_local_relations_Ok :
+  forall (d : db) (y : Synset) (args : list str),
+         scope d (ss_wordnet y) (ss_lexid y) <> [] ->
+         exists pairs : list (Relation * Synset), Synset_iter_local_relations d y args = Ok pairs.
+Proof. exact (@Synset_iter_local_relations_Ok). Qed.
+Print Assumptions C11_Synset_iter_local_relations_Ok.
+
+Theorem C11_get_sense_relations_iff :
+  forall (d : db) (src : Z) (types : list str) (ids : list Z) (rows : list q_sense_relation)
+           (r : q_sense_relation),
+         get_sense_relations d src types ids = Ok rows ->
+         In r rows <->
+         (exists
+            (srel : relation_row) (t : relation_type_row) (lex : lexicon_row)
+          (s : sense_row) (q : q_sense) (e : entry_row) (ss : synset_row),
+            In srel (t_sense_relations d) /\
+            rl_source_rowid srel = src /\
+            In (rl_lexicon_rowid srel) ids /\
+            find_by rt_rowid (rl_type_rowid srel) (rt d types) = Some t /\
+            find_by lex_rowid (rl_lexicon_rowid srel) (t_lexicons d) = Some lex /\
+            find_by se_rowid (rl_target_rowid srel) (t_senses d) = Some s /\
+            In (se_lexicon_rowid s) ids /\
+            sense_columns d s = Some (q, e, ss) /\
+            r =
+            {|
+              qsr_name := rt_type t;
+              qsr_lexicon := lexicon_specifier lex;
+              qsr_metadata := rl_metadata srel;
+              qsr_sense := q
+            |}).
+Proof. exact (@get_sense_relations_iff). Qed.
+Print Assumptions C11_get_sense_relations_iff.
+
+Theorem C11_synset_target_query_iff :
+  forall (d : db) (table : list relation_row) (srcs : list Z) (types : list str)
+           (ids : list Z) (rows : list q_synset_relation) (r : q_synset_relation),
+         synset_target_query d table srcs types ids = Ok rows ->
+         In r rows <->
+         (exists
+            (srel : relation_row) (t : relation_type_row) (lex : lexicon_row)
+          (tgt : synset_row),
+            In srel table /\
+            In (rl_source_rowid srel) srcs /\
+            In (rl_lexicon_rowid srel) ids /\
+            find_by rt_rowid (rl_type_rowid srel) (rt d types) = Some t /\
+            find_by lex_rowid (rl_lexicon_rowid srel) (t_lexicons d) = Some lex /\
+            find_by sy_rowid (rl_target_rowid srel) (t_synsets d) = Some tgt /\
+            In (sy_lexicon_rowid tgt) ids /\
+            r =
+            {|
+              qyr_name := rt_type t;
+              qyr_lexicon := lexicon_specifier lex;
+              qyr_metadata := rl_metadata srel;
+              qyr_src_rowid := rl_source_rowid srel;
+              qyr_synset := synset_columns d tgt
+            |}).
+Proof. exact (@synset_target_query_iff). Qed.
+Print Assumptions C11_synset_target_query_iff.
+
+(* ---- get_related / relations / relation_map are projections of the same pairs *)
+Theorem C11_Sense_get_related_def :
+  forall (d : db) (s : Sense) (args : list str),
+         Sense_get_related d s args =
+         (do pairs <- Sense_iter_sense_relations d s args; Ok (dedup Sense_key_eqb (map snd pairs))).
+Proof. exact (@Sense_get_related_def). Qed.
+Print Assumptions C11_Sense_get_related_def.
+
+Theorem C11_Sense_get_related_iff :
+  forall d : db,
+         db_ok d = true ->
+         forall (s : Sense) (args : list str) (ts : list Sense),
+         Sense_get_related d s args = Ok ts ->
+         nodup_by Sense_key_eqb ts /\
+         (forall t : Sense, In t ts -> exists r : Relation, sense_relation_row d s args r t) /\
+         (forall (r : Relation) (t : Sense),
+          sense_relation_row d s args r t -> exists t' : Sense, In t' ts /\ sn__id t' = sn__id t).
+Proof. exact (@Sense_get_related_iff). Qed.
+Print Assumptions C11_Sense_get_related_iff.
+
+Theorem C11_Sense_relation_map_iff :
+  forall d : db,
+         db_ok d = true ->
+         forall (s : Sense) (m : list (Relation * Sense)),
+         Sense_relation_map d s = Ok m ->
+         keys_distinct Relation_eqb m /\
+         (forall (r : Relation) (t : Sense),
+          In (r, t) m ->
+          (exists t0 : Sense, sense_relation_row d s [] r t0) /\
+          (exists r0 : Relation, sense_relation_row d s [] r0 t)) /\
+         (forall (r : Relation) (t : Sense),
+          sense_relation_row d s [] r t ->
+          exists (r' : Relation) (t' : Sense), In (r', t') m /\ Relation_eqb r' r = true).
+Proof. exact (@Sense_relation_map_iff). Qed.
+Print Assumptions C11_Sense_relation_map_iff.
+
+Theorem C11_Sense_relations_iff :
+  forall d : db,
+         db_ok d = true ->
+         forall (s : Sense) (args : list str) (m : list (str * list Sense)),
+         Sense_relations d s args = Ok m ->
+         (forall (n : str) (ts : list Sense) (t : Sense),
+          In (n, ts) m ->
+          In t ts -> exists r : Relation, sense_relation_row d s args r t /\ rel_name r = n) /\
+         (forall (r : Relation) (t : Sense),
+          sense_relation_row d s args r t ->
+          exists (ts : list Sense) (t' : Sense),
+            In (rel_name r, ts) m /\ In t' ts /\ sn__id t' = sn__id t).
+Proof. exact (@Sense_relations_iff). Qed.
+Print Assumptions C11_Sense_relations_iff.
+
+Theorem C11_Synset_get_related_def :
+  forall (d : db) (y : Synset) (args : list str),
+         Synset_get_related d y args =
+         (do pairs <- Synset_iter_relations d y args; Ok (dedup Synset_key_eqb (map snd pairs))).
+Proof. exact (@Synset_get_related_def). Qed.
+Print Assumptions C11_Synset_get_related_def.
+
+Theorem C11_Synset_relation_map_def :
+  forall (d : db) (y : Synset),
+         Synset_relation_map d y =
+         (do pairs <- Synset_iter_relations d y []; Ok (dict_of Relation_eqb pairs)).
+Proof. exact (@Synset_relation_map_def). Qed.
+Print Assumptions C11_Synset_relation_map_def.
+
+Theorem C11_Synset_relations_def :
+  forall (d : db) (y : Synset) (args : list str),
+         Synset_relations d y args =
+         (do pairs <- Synset_iter_relations d y args; Ok (relmap_of Synset_key_eqb pairs)).
+Proof. exact (@Synset_relations_def). Qed.
+Print Assumptions C11_Synset_relations_def.
+
+(* ---- Relation objects: equality is (name, source, target, lexicon, dc:type); the dc:type (subtype) is read from the metadata *)
+Theorem C11_Relation_eqb_iff :
+  forall a b : Relation,
+         Relation_eqb a b = true <->
+         rel_name a = rel_name b /\
+         rel_source_id a = rel_source_id b /\
+         rel_target_id a = rel_target_id b /\
+         rel_lexicon a = rel_lexicon b /\ Relation_subtype a = Relation_subtype b.
+Proof. exact (@Relation_eqb_iff). Qed.
+Print Assumptions C11_Relation_eqb_iff.
+
+Theorem C11_Relation_subtype_distinguishes :
+  forall a b : Relation, Relation_subtype a <> Relation_subtype b -> Relation_eqb a b = false.
+Proof. exact (@Relation_subtype_distinguishes). Qed.
+Print Assumptions C11_Relation_subtype_distinguishes.
+
+Theorem C11_Relation_subtype_def :
+  forall r : Relation, Relation_subtype r = metadata_get (rel_metadata r) s_type.
+Proof. exact (@Relation_subtype_def). Qed.
+Print Assumptions C11_Relation_subtype_def.
+
+(* ---- R2: closure terminates with the fuel the model uses, lists no identifier twice, lists only reachable entities and is closed under get_related; it is exactly the reachable set when identifiers are unique among them *)
+Theorem C11_closure_ok :
+  forall (T : Type) (succ : T -> list T) (get_related : T -> res (list T))
+           (id_of : T -> str) (good : T -> Prop),
+         (forall x : T, good x -> get_related x = Ok (succ x)) ->
+         (forall x y : T, good x -> In y (succ x) -> good y) ->
+         forall U : list str,
+         (forall x : T, good x -> In (id_of x) U) ->
+         forall (fuel : nat) (self : T),
+         (Datatypes.length U <= fuel)%nat ->
+         good self ->
+         exists result : list T,
+           closure get_related id_of fuel self = Ok result /\
+           NoDup (map id_of result) /\
+           (forall r : T, In r result -> reach succ (succ self) r) /\
+           (forall y : T, In y (succ self) -> In (id_of y) (map id_of result)) /\
+           (forall r y : T, In r result -> In y (succ r) -> In (id_of y) (map id_of result)).
+Proof. exact (@closure_ok). Qed.
+Print Assumptions C11_closure_ok.
+
+Theorem C11_closure_exact :
+  forall (T : Type) (succ : T -> list T) (get_related : T -> res (list T))
+           (id_of : T -> str) (good : T -> Prop),
+         (forall x : T, good x -> get_related x = Ok (succ x)) ->
+         (forall x y : T, good x -> In y (succ x) -> good y) ->
+         forall U : list str,
+         (forall x : T, good x -> In (id_of x) U) ->
+         forall (fuel : nat) (self : T) (result : list T),
+         (forall a b : T,
+          reach succ (succ self) a -> reach succ (succ self) b -> id_of a = id_of b -> a = b) ->
+         closure get_related id_of fuel self = Ok result ->
+         (Datatypes.length U <= fuel)%nat ->
+         good self -> NoDup result /\ (forall x : T, In x result <-> reach succ (succ self) x).
+Proof. exact (@closure_exact). Qed.
+Print Assumptions C11_closure_exact.
+
+Theorem C11_Sense_closure_ok :
+  forall d : db,
+         db_ok d = true ->
+         forall w : Wordnet,
+         wn_default_mode w = true \/ wn_lexicon_ids w <> [] ->
+         forall (args : list str) (s : Sense),
+         good_sense d w s ->
+         exists result : list Sense,
+           Sense_closure d (sense_fuel d) s args = Ok result /\
+           NoDup (map sn_id result) /\
+           (forall r : Sense, In r result -> reach (succ_sense d args) (succ_sense d args s) r) /\
+           (forall y : Sense, In y (succ_sense d args s) -> In (sn_id y) (map sn_id result)) /\
+           (forall r y : Sense,
+            In r result -> In y (succ_sense d args r) -> In (sn_id y) (map sn_id result)).
+Proof. exact (@Sense_closure_ok). Qed.
+Print Assumptions C11_Sense_closure_ok.
+
+Theorem C11_Sense_closure_exact :
+  forall d : db,
+         db_ok d = true ->
+         forall w : Wordnet,
+         wn_default_mode w = true \/ wn_lexicon_ids w <> [] ->
+         forall (args : list str) (s : Sense) (result : list Sense),
+         good_sense d w s ->
+         (forall a b : Sense,
+          reach (succ_sense d args) (succ_sense d args s) a ->
+          reach (succ_sense d args) (succ_sense d args s) b -> sn_id a = sn_id b -> a = b) ->
+         Sense_closure d (sense_fuel d) s args = Ok result ->
+         NoDup result /\
+         (forall x : Sense, In x result <-> reach (succ_sense d args) (succ_sense d args s) x).
+Proof. exact (@Sense_closure_exact). Qed.
+Print Assumptions C11_Sense_closure_exact.
+
+Theorem C11_Synset_closure_ok :
+  forall d : db,
+         db_ok d = true ->
+         forall w : Wordnet,
+         wn_default_mode w = true \/ wn_lexicon_ids w <> [] ->
+         forall (args : list str) (y : Synset),
+         good_synset d w y ->
+         exists result : list Synset,
+           Synset_closure d (synset_fuel d) y args = Ok result /\
+           NoDup (map ss_id result) /\
+           (forall r : Synset, In r result -> reach (succ_synset d args) (succ_synset d args y) r) /\
+           (forall t : Synset, In t (succ_synset d args y) -> In (ss_id t) (map ss_id result)) /\
+           (forall r t : Synset,
+            In r result -> In t (succ_synset d args r) -> In (ss_id t) (map ss_id result)).
+Proof. exact (@Synset_closure_ok). Qed.
+Print Assumptions C11_Synset_closure_ok.
+
+Theorem C11_Synset_closure_exact :
+  forall d : db,
+         db_ok d = true ->
+         forall w : Wordnet,
+         wn_default_mode w = true \/ wn_lexicon_ids w <> [] ->
+         forall (args : list str) (y : Synset) (result : list Synset),
+         good_synset d w y ->
+         (forall a b : Synset,
+          reach (succ_synset d args) (succ_synset d args y) a ->
+          reach (succ_synset d args) (succ_synset d args y) b -> ss_id a = ss_id b -> a = b) ->
+         Synset_closure d (synset_fuel d) y args = Ok result ->
+         NoDup result /\
+         (forall x : Synset, In x result <-> reach (succ_synset d args) (succ_synset d args y) x).
+Proof. exact (@Synset_closure_exact). Qed.
+Print Assumptions C11_Synset_closure_exact.
+
+(* ---- R3: relation_paths terminates and every path is a simple chain of get_related steps that cannot be extended *)
+Theorem C11_paths_from_sound :
+  forall (T : Type) (succ : T -> list T) (get_related : T -> res (list T))
+           (key_eqb : T -> T -> bool) (good : T -> Prop),
+         (forall x : T, good x -> get_related x = Ok (succ x)) ->
+         (forall x y : T, good x -> In y (succ x) -> good y) ->
+         forall (fuel : nat) (path : list T) (lst : T) (visited : list T)
+           (ps : list (list T)) (p : list T),
+         good lst ->
+         paths_from get_related key_eqb fuel path lst visited = Ok ps ->
+         In p ps ->
+         exists ext : list T,
+           p = path ++ ext /\
+           chain succ lst ext /\
+           simple_ext key_eqb visited ext /\
+           (forall y : T,
+            In y (succ (last_of lst ext)) -> existsb (key_eqb y) (visited ++ ext) = true).
+Proof. exact (@paths_from_sound). Qed.
+Print Assumptions C11_paths_from_sound.
+
+Theorem C11_relation_paths_sound :
+  forall (T : Type) (succ : T -> list T) (get_related : T -> res (list T)),
+         (T -> str) ->
+         forall (rowid_of : T -> Z) (key_eqb : T -> T -> bool) (good : T -> Prop),
+         (forall x : T, good x -> get_related x = Ok (succ x)) ->
+         (forall x y : T, good x -> In y (succ x) -> good y) ->
+         forall (fuel : nat) (self : T) (ps : list (list T)) (p : list T),
+         good self ->
+         relation_paths get_related rowid_of key_eqb fuel self = Ok ps ->
+         In p ps ->
+         exists (target : T) (ext : list T),
+           p = target :: ext /\
+           In target (succ self) /\
+           rowid_of target <> rowid_of self /\
+           chain succ target ext /\
+           simple_ext key_eqb [self; target] ext /\
+           (forall y : T,
+            In y (succ (last_of target ext)) -> existsb (key_eqb y) ([self; target] ++ ext) = true).
+Proof. exact (@relation_paths_sound). Qed.
+Print Assumptions C11_relation_paths_sound.
+
+Theorem C11_relation_paths_simple :
+  forall (T : Type) (succ : T -> list T) (get_related : T -> res (list T)),
+         (T -> str) ->
+         forall (rowid_of : T -> Z) (key_eqb : T -> T -> bool) (good : T -> Prop),
+         (forall x : T, good x -> get_related x = Ok (succ x)) ->
+         (forall x y : T, good x -> In y (succ x) -> good y) ->
+         forall (fuel : nat) (self : T) (ps : list (list T)) (p : list T),
+         good self ->
+         (forall a b : T, key_eqb a b = true -> rowid_of a = rowid_of b) ->
+         relation_paths get_related rowid_of key_eqb fuel self = Ok ps ->
+         In p ps -> nodup_by key_eqb p /\ (forall t : T, In t p -> key_eqb t self = false).
+Proof. exact (@relation_paths_simple). Qed.
+Print Assumptions C11_relation_paths_simple.
+
+Theorem C11_relation_paths_total :
+  forall (T : Type) (succ : T -> list T) (get_related : T -> res (list T)),
+         (T -> str) ->
+         forall (rowid_of : T -> Z) (key_eqb : T -> T -> bool) (good : T -> Prop),
+         (forall x : T, good x -> get_related x = Ok (succ x)) ->
+         (forall x y : T, good x -> In y (succ x) -> good y) ->
+         forall UT : list T,
+         (forall a b : T, key_eqb a b = true -> key_eqb b a = true) ->
+         (forall a b c : T, key_eqb a b = true -> key_eqb b c = true -> key_eqb a c = true) ->
+         (forall x : T, good x -> exists u : T, In u UT /\ key_eqb u x = true) ->
+         forall (fuel : nat) (self : T),
+         (Datatypes.length UT < fuel)%nat ->
+         good self ->
+         exists ps : list (list T), relation_paths get_related rowid_of key_eqb fuel self = Ok ps.
+Proof. exact (@relation_paths_total). Qed.
+Print Assumptions C11_relation_paths_total.
+
+Theorem C11_Sense_relation_paths_ok :
+  forall d : db,
+         db_ok d = true ->
+         forall w : Wordnet,
+         wn_default_mode w = true \/ wn_lexicon_ids w <> [] ->
+         forall (args : list str) (s : Sense),
+         good_sense d w s ->
+         exists ps : list (list Sense),
+           Sense_relation_paths d (sense_fuel d) s args = Ok ps /\
+           (forall p : list Sense,
+            In p ps ->
+            nodup_by Sense_key_eqb p /\
+            (forall t : Sense, In t p -> sn__id t <> sn__id s) /\
+            (exists (target : Sense) (ext : list Sense),
+               p = target :: ext /\
+               In target (succ_sense d args s) /\ chain (succ_sense d args) target ext)).
+Proof. exact (@Sense_relation_paths_ok). Qed.
+Print Assumptions C11_Sense_relation_paths_ok.
+
+Theorem C11_Synset_relation_paths_sound :
+  forall d : db,
+         db_ok d = true ->
+         forall w : Wordnet,
+         wn_default_mode w = true \/ wn_lexicon_ids w <> [] ->
+         forall (args : list str) (fuel : nat) (y : Synset) (ps : list (list Synset))
+           (p : list Synset),
+         good_synset d w y ->
+         Synset_relation_paths d fuel y args = Ok ps ->
+         In p ps ->
+         nodup_by Synset_key_eqb p /\
+         (forall t : Synset, In t p -> Synset_key_eqb t y = false) /\
+         (exists (target : Synset) (ext : list Synset),
+            p = target :: ext /\
+            In target (succ_synset d args y) /\
+            ss__id target <> ss__id y /\ chain (succ_synset d args) target ext).
+Proof. exact (@Synset_relation_paths_sound). Qed.
+Print Assumptions C11_Synset_relation_paths_sound.
+
+Theorem C11_Synset_relation_paths_total :
+  forall d : db,
+         db_ok d = true ->
+         forall w : Wordnet,
+         wn_default_mode w = true \/ wn_lexicon_ids w <> [] ->
+         forall (args : list str) (fuel : nat) (y : Synset),
+         good_synset d w y ->
+         (Datatypes.length (t_synsets d) +
+          Datatypes.length (t_ilis d) * Datatypes.length (t_synsets d) < fuel)%nat ->
+         exists ps : list (list Synset), Synset_relation_paths d fuel y args = Ok ps.
+Proof. exact (@Synset_relation_paths_total). Qed.
+Print Assumptions C11_Synset_relation_paths_total.
+
+(* ---- the code runs agenda loops (a stack for relation_paths, a queue for closure): the loops compute what the recursive definitions compute, in the same order, and terminate on every finite graph (over an abstract get_related function [hyp]) *)
+Theorem C11_loop_refines_recursion :
+  forall (hyp : Taxonomy.node -> list Taxonomy.node) (f1 f2 : nat)
+           (x : Taxonomy.node) (ps1 ps2 : list (list Taxonomy.node)),
+         AgendaProofs.relation_paths_loop hyp f1 x = Some ps1 ->
+         Taxonomy.relation_paths hyp f2 x = Some ps2 -> ps1 = ps2.
+Proof. exact (@WnV.Proofs.AgendaProofs.loop_refines_recursion). Qed.
+Print Assumptions C11_loop_refines_recursion.
+
+Theorem C11_loop_py_refines_recursion :
+  forall (hyp : Taxonomy.node -> list Taxonomy.node) (f1 f2 : nat)
+           (x : Taxonomy.node) (ps1 ps2 : list (list Taxonomy.node)),
+         AgendaProofs.relation_paths_loop_py hyp f1 x = Some ps1 ->
+         Taxonomy.relation_paths hyp f2 x = Some ps2 -> ps1 = ps2.
+Proof. exact (@WnV.Proofs.AgendaProofs.loop_py_refines_recursion). Qed.
+Print Assumptions C11_loop_py_refines_recursion.
+
+Theorem C11_loop_terminates :
+  forall (hyp : Taxonomy.node -> list Taxonomy.node) (V : list Taxonomy.node)
+           (x : Taxonomy.node),
+         TaxSpec.closed hyp V ->
+         In x V -> exists fuel : nat, AgendaProofs.relation_paths_loop hyp fuel x <> None.
+Proof. exact (@WnV.Proofs.AgendaProofs.loop_terminates). Qed.
+Print Assumptions C11_loop_terminates.
+
+Theorem C11_loop_spec :
+  forall (hyp : Taxonomy.node -> list Taxonomy.node) (fuel : nat)
+           (x : Taxonomy.node) (ps : list (list Taxonomy.node)),
+         AgendaProofs.relation_paths_loop hyp fuel x = Some ps ->
+         forall p : list Taxonomy.node, In p ps <-> p <> [] /\ TaxSpec.maximal_simple hyp x p.
+Proof. exact (@WnV.Proofs.AgendaProofs.loop_spec). Qed.
+Print Assumptions C11_loop_spec.
+
+Theorem C11_closure_loop_spec :
+  forall (hyp : Taxonomy.node -> list Taxonomy.node) (fuel : nat)
+           (x : Taxonomy.node) (l : list Taxonomy.node),
+         AgendaProofs.closure_loop hyp fuel (hyp x) [] [] = Some l ->
+         NoDup l /\
+         (forall y : Taxonomy.node,
+          In y l <->
+          (exists p : list Taxonomy.node, p <> [] /\ TaxSpec.chain hyp x p /\ last p x = y)).
+Proof. exact (@WnV.Proofs.AgendaProofs.closure_loop_spec). Qed.
+Print Assumptions C11_closure_loop_spec.
+
+Theorem C11_closure_loop_terminates_bound :
+  forall (hyp : Taxonomy.node -> list Taxonomy.node) (V : list Taxonomy.node)
+           (x : Taxonomy.node) (fuel : nat),
+         TaxSpec.closed hyp V ->
+         NoDup V ->
+         (Datatypes.length (hyp x) + Datatypes.length (concat (map hyp V)) <= fuel)%nat ->
+         AgendaProofs.closure_loop hyp fuel (hyp x) [] [] <> None.
+Proof. exact (@WnV.Proofs.AgendaProofs.closure_loop_terminates_bound). Qed.
+Print Assumptions C11_closure_loop_terminates_bound.
+
+(* ---- non-vacuity: db_ok on real dumps; the fuel bound is met with equality-free slack on the database that refuted the previous bound *)
+Theorem C11_db_ok_sample_1 :
+  db_ok sample_db_1 = true.
+Proof. exact (@db_ok_sample_1). Qed.
+Print Assumptions C11_db_ok_sample_1.
+
+Theorem C11_db_ok_fuzz :
+  db_ok sample_db_fuzz = true.
+Proof. exact (@db_ok_fuzz). Qed.
+Print Assumptions C11_db_ok_fuzz.
+
+Theorem C11_old_fuel_bound_refuted :
+  fpaths (S (S (Datatypes.length (t_synsets fdb) + Datatypes.length (t_ilis fdb)))) =
+         OutOfFuel.
+Proof. exact (@old_fuel_bound_refuted). Qed.
+Print Assumptions C11_old_fuel_bound_refuted.
+
+Theorem C11_model_fuel_suffices :
+  match fpaths (synset_fuel fdb) with
+         | Ok ps =>
+             (Datatypes.length ps, fold_right Nat.max 0%nat (map (Datatypes.length (A:=Synset)) ps))
+         | _ => (0%nat, 0%nat)
+         end = (6%nat, 19%nat).
+Proof. exact (@model_fuel_suffices). Qed.
+Print Assumptions C11_model_fuel_suffices.
+
